@@ -9,6 +9,10 @@ class Boom(Exception):
     pass
 
 
+class BoomBase(BaseException):
+    """a holder may also leave its critical section with a BaseException (KeyboardInterrupt-like)"""
+
+
 SPEC_EVENT = {"A1": "InnerAcq", "E1": "InnerAcq", "R1": "InnerAcq", "X1": "InnerAcq", "A2": "EvNew",
               "A2s": "EvSet", "E2s": "EvSet", "R2s": "EvSet", "A3": "InnerRel", "A3x": "InnerRel", "E3": "InnerRel",
               "R3": "InnerRel", "X3": "InnerRel", "A4": "EvWake", "A5": "AcqRet", "CS": "Body"}
@@ -68,7 +72,7 @@ class GuidedStrategy(ds.Strategy):
         return cands[0]
 
 
-def run_lock(n_threads: int, rounds: int, breaker, strategy, counter_mode=False, max_steps=20000, resets=0):
+def run_lock(n_threads: int, rounds: int, breaker, strategy, counter_mode=False, max_steps=20000, resets=0, exc_kind="msg"):
     """breaker: (thread_name, round) or None.  resets: number of reset() calls made by one more thread ("rx") at
     scheduler-chosen moments.  Returns dict with trace, outcomes, verdict."""
     mods = install.install()
@@ -165,18 +169,27 @@ def run_lock(n_threads: int, rounds: int, breaker, strategy, counter_mode=False,
                         emit("AcqRet", o="ok")
                         if breaker is not None and (t, r) == tuple(breaker):
                             emit("Body", v=0)
+                            # the exception the holder leaves with: with a message, without any argument, or a BaseException
+                            if exc_kind == "bare":
+                                raise Boom
+                            if exc_kind == "base":
+                                raise BoomBase
                             raise Boom(f"boom {t} {r}")
                         state["counter"] += 1
                         got[(t, r)] = state["counter"]
                         emit("Body", v=state["counter"])
                     outcomes[(t, r)] = "ok"
-                except Boom:
+                except (Boom, BoomBase):
                     outcomes[(t, r)] = "own_exception"
+                except ds.Abort:
+                    raise
                 except OrderedLockError:
                     outcomes[(t, r)] = "lock_error"
                     # path A5 (woken, then saw broken) is logged; path A2-broken/A3x has no AcqRet in the spec
                     if any(e["ev"] == "EvWake" and e["t"] == t for e in evs[n_before:]):
                         emit("AcqRet", o="lock_error")
+                except Exception as e:  # noqa: BLE001 - anything else is neither the holder's own exception nor an ordered-lock error
+                    outcomes[(t, r)] = f"unexpected:{type(e).__name__}"
 
         reset_results: list = []
 
@@ -209,5 +222,5 @@ def run_lock(n_threads: int, rounds: int, breaker, strategy, counter_mode=False,
             "got": {f"{k[0]}:{k[1]}": v for k, v in got.items()},
             "verdict": sched.verdict, "verdict_info": sched.verdict_info, "steps": sched.steps,
             "breaker": list(breaker) if breaker else ["NoCall", 0], "choices": sched.choices,
-            "n_threads": n_threads, "rounds": rounds, "counter_mode": counter_mode, "resets": resets,
+            "n_threads": n_threads, "rounds": rounds, "counter_mode": counter_mode, "resets": resets, "exc_kind": exc_kind,
             "reset_results": reset_results}
